@@ -215,5 +215,91 @@ Section IOText.
            | _ => None
            end
     end.
+
+  (* read_gmsh (lapy/_tet_io.py 11-110): Gmsh 2 ASCII, tetrahedra only; node numbers are 1-based, the first column of the node
+     block (node ids) is dropped *)
+  Definition rows4_of (rows : list (list nat)) : option (list tet) := rows4 rows.
+  Definition read_gmsh (zK : Z -> K) (s : file) : option (list (K * K * K) * list tet) :=
+    match readline s with
+    | Some (TW w0 :: _, r0) =>
+      if negb (String.eqb w0 "$MeshFormat") then None else
+      match readline r0 with
+      | Some (_ :: TZ ftype :: _ :: _, r1) =>
+        if negb (Z.eqb ftype 0) then None else
+        match readline r1 with
+        | Some (TW w1 :: _, r2) =>
+          if negb (String.eqb w1 "$EndMeshFormat") then None else
+          match readline r2 with
+          | Some (TW w2 :: _, r3) =>
+            if negb (String.eqb w2 "$Nodes") then None else
+            match readline r3 with
+            | Some ([TZ pn], r4) =>
+              let '(nums, r5) := take_nums r4 (4 * Z.to_nat pn) in
+              if negb (Nat.eqb (List.length nums) (4 * Z.to_nat pn)) then None else
+              match all_some (map (numK zK) nums) with
+              | None => None
+              | Some ks =>
+                match chunkn 4 (List.length ks) ks with
+                | None => None
+                | Some vrows =>
+                  match all_some (map (fun r => match r with [_; x; y; z] => Some (x, y, z) | _ => None end) vrows) with
+                  | None => None
+                  | Some v =>
+                    match readline r5 with
+                    | Some (TW w3 :: _, r6) =>
+                      if negb (String.eqb w3 "$EndNodes") then None else
+                      match readline r6 with
+                      | Some (TW w4 :: _, r7) =>
+                        if negb (String.eqb w4 "$Elements") then None else
+                        match readline r7 with
+                        | Some ([TZ tn], r8) =>
+                          match readline r8 with
+                          | Some (first, _) =>
+                            let w := List.length first in
+                            match first with
+                            | _ :: TZ ty :: _ =>
+                              if negb (Z.eqb ty 4) then None else
+                              let '(inums, r9) := take_nums r8 (Z.to_nat tn * w) in
+                              if negb (Nat.eqb (List.length inums) (Z.to_nat tn * w)) then None else
+                              match all_some (map tokZ inums) with
+                              | None => None
+                              | Some zs =>
+                                match chunkn w (List.length zs) zs with
+                                | None => None
+                                | Some rows =>
+                                  match readline r9 with
+                                  | Some (TW w5 :: _, _) =>
+                                    if negb (String.eqb w5 "$EndElements") then None else
+                                    match rows4 (map (fun row => map (fun z => Z.to_nat (z - 1)) (skipn (w - 4) row)) rows) with
+                                    | Some t => Some (v, t)
+                                    | None => None
+                                    end
+                                  | _ => None
+                                  end
+                                end
+                              end
+                            | _ => None
+                            end
+                          | None => None
+                          end
+                        | _ => None
+                        end
+                      | _ => None
+                      end
+                    | _ => None
+                    end
+                  end
+                end
+              end
+            | _ => None
+            end
+          | _ => None
+          end
+        | _ => None
+        end
+      | _ => None
+      end
+    | _ => None
+    end.
 End IOText.
 Arguments TZ {K} z. Arguments TW {K} w. Arguments EOL {K}.
